@@ -2,6 +2,8 @@ package harness
 
 import (
 	"fmt"
+	"math"
+	"math/big"
 	"strconv"
 	"strings"
 	"unicode/utf8"
@@ -131,7 +133,32 @@ func (g *docGen) str(s string) {
 // number writes a number literal and returns the expected value.
 func (g *docGen) number() V {
 	var raw string
-	switch pick(g.t, "numk", 30, 4, 8, 18, 22, 10, 8) {
+	switch pick(g.t, "numk", 30, 4, 8, 18, 22, 10, 8, 5) {
+	case 7:
+		// the exact decimal expansion of the midpoint between two adjacent floats (50-770 digits), nudged up
+		// or down in its last place or left as it is: rounds correctly only if no digit is thrown away
+		f, _ := GenFloat(g.t)
+		if f == 0 || math.IsInf(f, 0) || f != f || math.Abs(f) > 1e300 || math.Abs(f) < 1e-290 {
+			f = 1
+		}
+		up := math.Nextafter(f, math.Inf(1))
+		mid := new(big.Float).SetPrec(2000).SetFloat64(f)
+		mid.Add(mid, new(big.Float).SetPrec(2000).SetFloat64(up))
+		mid.Quo(mid, big.NewFloat(2))
+		raw = mid.Text('f', 1100)
+		raw = strings.TrimRight(raw, "0")
+		if strings.HasSuffix(raw, ".") {
+			raw += "0"
+		}
+		switch drawInt(g.t, 0, 2, "nudge") {
+		case 1:
+			raw += "0000000001" // just above the midpoint
+		case 2:
+			if last := raw[len(raw)-1]; last > '0' && last <= '9' && strings.Contains(raw, ".") {
+				raw = raw[:len(raw)-1] + string(last-1) + "9999999999" // just below
+			}
+		}
+		g.feat("num_midpoint")
 	case 0:
 		i, _ := GenInt(g.t)
 		raw = strconv.Itoa(i)
